@@ -181,6 +181,12 @@ class SymSession(_Base):
         self.ctx.input_order.append(name)
         return SymBool(v)
 
+    def token(self, name, can_be_bad=False, integer=False, nan=False):
+        """A numeral in a text source: (token, value, bad flag)."""
+        v = self.integer(name) if integer else self.real(name, nan=nan)
+        bad = self.boolean(name + ".bad") if can_be_bad else False
+        return V.Token(name, v, bad), v, bad
+
     def choose(self, name, n):
         return self.ctx.choose(n, name)
 
@@ -273,6 +279,19 @@ class ConcSession(_Base):
 
     def boolean(self, name):
         return bool(self._get(name))
+
+    def token(self, name, can_be_bad=False, integer=False, nan=False):
+        bad = bool(self._get(name + ".bad")) if can_be_bad else False
+        v = self._get(name)
+        if integer:
+            v = int(v)
+            text = "%d" % v
+        else:
+            v = np.float64(v)
+            text = "nan" if np.isnan(v) else repr(float(v))
+        if bad:
+            text = "n/a"
+        return text, v, bad
 
     def choose(self, name, n):
         k = self.counter.get(name, 0)
